@@ -306,6 +306,29 @@ def run_case(ctx, case):
             except Exception as e:  # noqa
                 ctx.fail_exc('symtab|get_symbol', e, case)
 
+    # A look-up interrupted by a read error the caller catches (vf/streams.py FaultOnce) may be repeated: the repetition answers from the
+    # whole table.
+    if n >= 3 and queries and core.digest(data)[2] % 3 == 0:
+        try:
+            fst = streams.FaultOnce(data)
+            tab2 = L['ELFFile'](fst).get_section(2 + case.get('pad', 0))
+            fst.arm(2 + core.digest(data)[3] % (2 * n))
+            try:
+                tab2.get_symbol_by_name(queries[0])
+            except Exception:  # noqa
+                pass
+            fst.disarm()
+            if fst.faults:
+                ctx.count('transient-fault.lookup-interrupted')
+                for q in queries[:8]:
+                    got = tab2.get_symbol_by_name(q)
+                    exp = bynames.get(q)
+                    if (got is None) != (exp is None) or (got is not None and len(got) != len(exp)):
+                        ctx.fail('symtab|by_name|repeated-after-a-failed-attempt', 'query %r: %s symbols bear the name; after a look-up that a read error interrupted the table answers %s' % (
+                            q, len(exp) if exp else 0, 'None' if got is None else len(got)), case)
+                        break
+        except Exception as e:  # noqa
+            ctx.fail_exc('symtab|by_name|repeated-after-a-failed-attempt', e, case)
     nt = False
     # XINDEX companion
     if 'shndx' in idx:
